@@ -100,8 +100,17 @@ class Ctx:
             raise AnalysisError("%s.FORMAL_ATTRIBUTES is not a tuple of qualified names" % cls_qual)
         return tuple(v)
 
+    def type_field(self) -> str:
+        """Name of the class attribute ProvRecord.get_type() returns (discovered)."""
+        if "type_field" not in self._cache:
+            inv = {v: k for k, v in self.field_aliases(M + ".ProvRecord").items()}
+            if "type" not in inv:
+                raise AnalysisError("anchor vanished: ProvRecord.get_type() does not return a class attribute")
+            self._cache["type_field"] = inv["type"]
+        return self._cache["type_field"]
+
     def prov_type_of_class(self, cls_qual: str) -> Optional[QN]:
-        v = self.f.class_attr(cls_qual, "_prov_type")
+        v = self.f.class_attr(cls_qual, self.type_field())
         return v if isinstance(v, QN) else None
 
     # ---------------------------------------------------------------- function-level helpers
@@ -214,6 +223,34 @@ class Ctx:
             if isinstance(v, (dict, set, frozenset, list, tuple)) and not is_unknown(v):
                 out.append((kind, v, norm(base), key, n))
         return out
+
+    def field_aliases(self, cls_qual: str) -> Dict[str, str]:
+        """private field -> name of the public accessor that returns it unchanged (a property, or a zero-argument get_x() method whose
+        body is `return self.<field>`), over the MRO.  Lets rules name content by its public name whatever the field is called."""
+        k = "aliases:" + cls_qual
+        if k in self._cache:
+            return self._cache[k]
+        out: Dict[str, str] = {}
+        for c in (self.p.mro(cls_qual) if cls_qual in self.p.classes else []):
+            if c not in self.p.classes:
+                continue
+            for mname, mq in self.p.classes[c].methods.items():
+                fi = self.p.functions[mq]
+                if len(fi.params) != 1 or mname.startswith("__"):
+                    continue
+                body = [st for st in fi.node.body if not (isinstance(st, ast.Expr) and isinstance(st.value, ast.Constant))]
+                if len(body) == 1 and isinstance(body[0], ast.Return) and isinstance(body[0].value, ast.Attribute) and dotted(body[0].value.value) == "self":
+                    pub = mname[4:] if mname.startswith("get_") else mname
+                    out.setdefault(body[0].value.attr, pub)
+        self._cache[k] = out
+        return out
+
+    def canon_field(self, cls_qual: Optional[str], attr: str) -> str:
+        if cls_qual:
+            al = self.field_aliases(cls_qual)
+            if attr in al:
+                return al[attr]
+        return attr.lstrip("_") if not attr.startswith("__") else attr
 
     def loc(self, qual_or_mod: str, node) -> str:
         u = self.p.unit_of(qual_or_mod)
